@@ -18,3 +18,9 @@ import MdVerif.Props.C02Big
 #print axioms MdVerif.C02Big.C02_blockStageX_noctl
 #print axioms MdVerif.C02Big.C02_convertXBig_total
 #print axioms MdVerif.C02Big.C02_convertXBig_refines
+#print axioms MdVerif.C02Big.C02_blockStageX_no_placeholder
+#print axioms MdVerif.C02Big.C02_handleInlineX_total
+#print axioms MdVerif.C02Big.C02_handleInlineX_potential
+#print axioms MdVerif.C02Big.C02_runX_total_bigfuel
+#print axioms MdVerif.C02Big.C02_runX_fuel_mono
+#print axioms MdVerif.C02Big.C02_table_without_wikilinks
